@@ -147,7 +147,7 @@ def corruptions(rng, text, n):
     idx = content_line_indices(text)
     out = []
     for _ in range(n):
-        kind = rng.choice(["delete", "garble", "garble", "garble", "number", "reference", "header", "section"])
+        kind = rng.choice(["delete", "garble", "garble", "garble", "number", "reference", "header", "section", "term"])
         ls = list(lines)
         k = rng.choice(idx)
         if kind == "delete":
@@ -179,6 +179,15 @@ def corruptions(rng, text, n):
             tok = m.group(0)
             new = ("'" + tok.strip("'") + "_x'") if tok.startswith("'") else tok + "_x"
             ls[k] = l[:m.start()] + new + l[m.end():]
+        elif kind == "term":
+            import re
+            # a load line whose term is not one of fx, fy, mz (same shape, unknown meaning)
+            cand = [i for i in idx if re.match(r"\s*[fm][xyz]\s+[lg][cd]\s", lines[i])]
+            if not cand:
+                continue
+            k = rng.choice(cand)
+            m = re.match(r"(\s*)([fm][xyz])", ls[k])
+            ls[k] = m.group(1) + rng.choice(["fz", "mx", "my"]) + ls[k][m.end():]
         elif kind == "header":
             ls[0] = rng.choice(["", "inkfem", "inkfem v1", "inkfem 1.1", "xinkfem v1.1", "inkfem v1.1 x", "inkfem va.b", "|nodes|", "# inkfem v1.1"])
             if ls[0] == "":
